@@ -15,6 +15,8 @@ import (
 	"github.com/ipld/go-ipld-prime/codec/raw"
 	"github.com/ipld/go-ipld-prime/datamodel"
 	"github.com/ipld/go-ipld-prime/node/basicnode"
+	"github.com/ipld/go-ipld-prime/node/bindnode"
+	"github.com/ipld/go-ipld-prime/node/gendemo"
 	"github.com/ipld/go-ipld-prime/traversal"
 	"github.com/ipld/go-ipld-prime/traversal/selector"
 	"pgregory.net/rapid"
@@ -25,6 +27,8 @@ import (
 	"verif/refcbor"
 	"verif/refsel"
 	"verif/selx"
+	"verif/tschema"
+	"verif/typedx"
 	"verif/val"
 )
 
@@ -46,11 +50,24 @@ type C10Case struct {
 	Opt    C10Opt `json:"opt"`
 	Target string `json:"target"`
 	Source string `json:"source,omitempty"`
+	// typed targets: the builder is the bindnode prototype of Type in S (Level 0 type, 1 representation)
+	S     *tschema.Schema `json:"schema,omitempty"`
+	Type  string          `json:"type,omitempty"`
+	Level int             `json:"level,omitempty"`
 }
 
 var c10Targets = []string{"basic.any", "proxy", "basic.map", "basic.list", "basic.string", "basic.bytes", "basic.int", "basic.link", "bind.anymap", "bind.anylist", "bind.anymap.repr"}
 
+var c10GenDemo = map[string]datamodel.NodePrototype{
+	"gendemo.Msg3": gendemo.Type.Msg3, "gendemo.Msg3.repr": gendemo.Type.Msg3__Repr,
+	"gendemo.Map": gendemo.Type.Map__String__Msg3, "gendemo.Map.repr": gendemo.Type.Map__String__Msg3__Repr,
+	"gendemo.UnionKinded": gendemo.Type.UnionKinded, "gendemo.UnionKinded.repr": gendemo.Type.UnionKinded__Repr,
+}
+
 func c10Builder(target string) (datamodel.NodeBuilder, *nodes.Proxy) {
+	if np, ok := c10GenDemo[target]; ok {
+		return np.NewBuilder(), nil
+	}
 	switch target {
 	case "proxy":
 		p := nodes.NewProxy(basicnode.Prototype.Any.NewBuilder())
@@ -101,6 +118,18 @@ var c10MaxRatio float64
 
 func c10Check(c C10Case, rec *evid.Rec) error {
 	nb, proxy := c10Builder(c.Target)
+	if c.S != nil {
+		ts, err := c.S.Build()
+		if err != nil {
+			return fmt.Errorf("generated schema does not build: %w", err)
+		}
+		if err := evid.Guard("bindnode.Prototype", func() error {
+			nb = typedx.TypedProto(bindnode.Prototype(nil, ts.TypeByName(c.Type)), c.Level).NewBuilder()
+			return nil
+		}); err != nil {
+			return err
+		}
+	}
 	var decode func() error
 	effDepth, effPre, effBudget := c.Opt.MaxDepth, c.Opt.Prealloc, c.Opt.Budget
 	if effDepth <= 0 {
@@ -176,7 +205,12 @@ func c10Check(c C10Case, rec *evid.Rec) error {
 			class = "limit:depth"
 		}
 	}
-	rec.Case(val.HashBytes(append([]byte(fmt.Sprintf("%s|%+v|%s|", c.Codec, c.Opt, c.Target)), c.Bytes...)), nt, "codec:"+c.Codec, class, "target:"+c.Target, "src:"+c.Source)
+	hk := fmt.Sprintf("%s|%+v|%s|", c.Codec, c.Opt, c.Target)
+	if c.S != nil {
+		sb, _ := jsonMarshal(c.S)
+		hk += fmt.Sprintf("%s|%s|%d|", sb, c.Type, c.Level)
+	}
+	rec.Case(val.HashBytes(append([]byte(hk), c.Bytes...)), nt, "codec:"+c.Codec, class, "target:"+c.Target, "src:"+c.Source)
 	if nt && class != "rejected" && rec.WantSample() && len(c.Bytes) < 200 {
 		rec.Sample(map[string]any{"codec": c.Codec, "opt": c.Opt, "target": c.Target, "bytes": fmt.Sprintf("%x", c.Bytes), "outcome": class})
 	}
@@ -315,6 +349,70 @@ var c10Decoders = evid.Part[C10Case]{
 }.Reg()
 
 func TestC10_Decoders(t *testing.T) { c10Decoders.Run(t) }
+
+// Typed assemblers as decoder targets: the encoding of a conforming value of a drawn schema type
+// (or of the checked-in generated types), damaged at byte level, decoded straight into the typed builder.
+var c10Typed = evid.Part[C10Case]{
+	Prop: "C10", Name: "typedtargets", Quick: 3000, Thorough: 300000,
+	Rule: "decoders feeding TYPED assemblers: drawn schema × type × level (bindnode) or the checked-in generated types (node/gendemo), input = reference encoding (DAG-CBOR, or DAG-JSON text) of a conforming value's tree with 0-3 byte-level mutations, or a hostile-table entry, × decoder options; oracle as for the untyped targets (no panic, terminates, allocation bound) and an accepted node must be fully readable; non-trivial = accepted or rejected after ≥2 bytes; distinct by (schema, type, level, options, input)",
+	Gen: func(t *rapid.T) C10Case {
+		c := C10Case{Codec: rapid.SampledFrom([]string{"dag-cbor", "dag-cbor", "cbor", "dag-json", "json"}).Draw(t, "codec"), Opt: drawC10Opt(t)}
+		isJson := c.Codec == "dag-json" || c.Codec == "json"
+		var events val.V
+		if rapid.IntRange(0, 4).Draw(t, "gendemo") == 0 {
+			names := []string{"gendemo.Msg3", "gendemo.Msg3.repr", "gendemo.Map", "gendemo.Map.repr", "gendemo.UnionKinded", "gendemo.UnionKinded.repr"}
+			c.Target = rapid.SampledFrom(names).Draw(t, "gd")
+			m3 := func() val.V {
+				return msg3(val.DrawInt(t, "i", false), val.DrawInt(t, "i", false), val.DrawInt(t, "i", false))
+			}
+			switch c.Target {
+			case "gendemo.Msg3", "gendemo.Msg3.repr":
+				events = m3()
+			case "gendemo.Map", "gendemo.Map.repr":
+				events = val.V{K: val.Map, Ents: []val.Ent{}}
+				for i, n := 0, rapid.IntRange(0, 3).Draw(t, "n"); i < n; i++ {
+					events.Ents = append(events.Ents, val.Ent{K: fmt.Sprintf("k%d", i), V: m3()})
+				}
+			case "gendemo.UnionKinded":
+				events = val.MkMap(val.Ent{K: rapid.SampledFrom([]string{"Foo", "Bar", "Baz"}).Draw(t, "m"), V: val.MkInt(1)})
+			default:
+				events = rapid.SampledFrom([]val.V{val.MkInt(7), val.MkBool(true), val.MkString("s")}).Draw(t, "m")
+			}
+		} else {
+			s, typ, tv := genSchemaValue(t, tschema.GenOpts{MaxTypes: 5})
+			c.S, c.Type, c.Level = &s, typ, rapid.IntRange(0, 1).Draw(t, "level")
+			c.Target = "bindnode.typed"
+			if c.Level == 0 {
+				events = typedx.StripAbsent(tschema.TypeView(&s, typ, tv))
+			} else {
+				events, _ = tschema.ReprView(&s, typ, tv)
+			}
+		}
+		var b []byte
+		if isJson {
+			if n, err := nodes.BuildDefault(events); err == nil {
+				b, _ = encDagJson(n)
+			}
+		} else {
+			b, _ = refcbor.Encode(events)
+		}
+		if rapid.IntRange(0, 7).Draw(t, "hostile") == 0 {
+			tbl := c10HostileCbor
+			if isJson {
+				tbl = c10HostileJson
+			}
+			b = rapid.SampledFrom(tbl).Draw(t, "hostilewhich")
+			c.Source = "hostile"
+		} else {
+			c.Source = "typed-mutant"
+		}
+		c.Bytes, _ = drawByteMutations(t, b, 3)
+		return c
+	},
+	Check: c10Check,
+}.Reg()
+
+func TestC10_TypedTargets(t *testing.T) { c10Typed.Run(t) }
 
 // TestC10_HostileTable runs every entry of the hostile tables, unmutated, against every
 // codec of its family with tight and default limits and the proxy target (both tiers).
